@@ -295,10 +295,15 @@ def r3_agreement(ctx):
                     src_of[fold(a[3])] = fold(a[2])
                 except (Unfoldable, IndexError):
                     pass
+    gen_lost = False
     for tgt in sorted(tuples, key=str):
         rs, ks, rt, kt = tuples[tgt]
         m = mk.get(tgt)
-        ok = m is not None and len(m) == 2 and m[0] == 1 << rs and m[1] == 1 << rt and kt == tgt and src_of.get(tgt) == ks
+        if tgt not in src_of and not gen_lost:
+            # the generator no longer passes constant squares (a table of castle rules, a loop): its squares are not read here
+            gen_lost = True
+            ctx.lost(rid, "the king's source squares the castle generator passes to make_castle_move")
+        ok = m is not None and len(m) == 2 and m[0] == 1 << rs and m[1] == 1 << rt and kt == tgt and (src_of.get(tgt) == ks or tgt not in src_of)
         ctx.ob(rid, "castle-squares|target-%s" % tgt, ok,
                "" if ok else "castling to square %s: zobrist_xor moves rook %s->%s, king %s->%s; make moves rook masks %s; generator king source %s"
                % (tgt, rs, rt, ks, kt, [hex(x) for x in (m or ())], src_of.get(tgt)),
